@@ -67,6 +67,21 @@ P('C10',
   thorough=dict(cases=4000000, max_size=700, max_seconds=1500, fuzz=dict(seconds=240, jobs=8, max_len=1024)),
   )
 
+P('C11',
+  technique='stateful model-based property testing: generated (un)registration histories incl. scripted actions executed from inside callbacks, list model oracle; acquisition checked through real page transmissions',
+  rule='history of up to 30 operations (register / unregister / legacy add / legacy remove / send event with a script of 0-4 actions performed '
+       'from inside the j-th callback / transmit a Teletext page) over 4 handler functions x 3 user pointers x masks {0, single, unions, -1}. '
+       'Non-trivial: during a delivery a callback removed a handler, added one, or changed a mask; distinct = hash of consumed choices.',
+  level_text='Generated-history search with an explicit oracle: the observed callback sequence of every delivery must equal a reference walk '
+             'over the registration list (exactly once, own user pointer, registration order, removed-before-turn never called, added or '
+             'mask-changed during delivery at most once), ASan guards freed handler records, and a page transmitted after every history prefix '
+             'is acquired iff some registered handler requests Teletext page events. Sampling only.',
+  level_note='Trusted: the list model written from the documentation of vbi_event_handler_register / _add; nested vbi_send_event from a handler is documented as unsupported and not generated.',
+  design_ref='DESIGN.md section 2, C11',
+  quick=dict(cases=1200000, max_size=400, max_seconds=150),
+  thorough=dict(cases=30000000, max_size=400, max_seconds=1500, fuzz=dict(seconds=180, jobs=8, max_len=600)),
+  )
+
 NOT_YET = {}
 
 
